@@ -567,6 +567,42 @@ func (pr *Program) LemmaObligations(c *Contract, pi *PkgInfo) (obls []*Obligatio
 	obls = append(obls, &Obligation{Name: tag + "/cover#pre", Prop: c.Prop(), Kind: "cover", Cover: true, Hyp: s.PC, Goal: True, Pos: fmt.Sprintf("%s:%d", c.File, c.Line)})
 	proved := map[string]*Term{}
 	for _, cl := range c.Clauses {
+		if cl.Kind == "apply" {
+			// apply Name(args): an EARLIER lemma of the same file, instantiated at the given terms, becomes a hypothesis of the
+			// clauses that follow (its own obligations are discharged separately; the order requirement excludes circular use)
+			if cl.Expr == nil || cl.Expr.Op != "call" || len(cl.Expr.Args) == 0 || cl.Expr.Args[0].Op != "ident" {
+				return nil, fmt.Errorf("lemma %s: expected 'apply Name(args)'", c.FuncName)
+			}
+			name := cl.Expr.Args[0].Name
+			lc, ok := pr.Contracts[pi.Path+"|lemma:"+name]
+			if !ok || !lc.IsLemma {
+				return nil, fmt.Errorf("lemma %s: apply of unknown lemma %s", c.FuncName, name)
+			}
+			if lc.File != c.File || lc.Line >= c.Line {
+				return nil, fmt.Errorf("lemma %s: applied lemma %s must be stated earlier in the same file", c.FuncName, name)
+			}
+			if len(cl.Expr.Args)-1 != len(lc.Params) {
+				return nil, fmt.Errorf("lemma %s: apply %s: wrong number of arguments", c.FuncName, name)
+			}
+			sc2 := &specCtx{bound: map[string]*Value{}}
+			for i, p := range lc.Params {
+				nt := strings.SplitN(p, ":", 2)
+				sc2.bound[nt[0]] = x.evalSpec(s, cl.Expr.Args[i+1], sc)
+			}
+			req, ens := True, True
+			for _, lcl := range lc.Clauses {
+				switch lcl.Kind {
+				case "requires":
+					req = And(req, x.evalClause(s, lcl, sc2))
+				case "ensures":
+					ens = And(ens, x.evalClause(s, lcl, sc2))
+				case "apply":
+					// hypotheses of the applied lemma's own proof are not exported
+				}
+			}
+			s.Assume(Implies(req, ens))
+			continue
+		}
 		if cl.Kind == "ensures" {
 			g := x.evalClause(s, cl, sc)
 			hyp := s.PC
